@@ -139,6 +139,9 @@ class SpecGen:
                 sel.append((("agg", r.choice(["Sum", "Count", "Max", "Min"]), self.num(srcs, 1)), "ag%d" % len(sel) if r.random() < 0.6 else None))
             spec["having"] = ("cmp", r.choice([">", ">=", "<>"]), ("agg", r.choice(["Count", "Sum"]), self.col(srcs)), ("lit", r.choice([0, 1, 2]))) \
                 if r.random() < 0.4 else None
+            if spec["having"] is not None and allow_sub and self.depth < 1 and r.random() < 0.3:
+                # the aggregate compared with a scalar sub-query (its own statement, in parentheses)
+                spec["having"] = spec["having"][:3] + (("scalar", SpecGen(r, self.depth + 1).scalar_sub(srcs)),)
         else:
             for i in range(r.randint(1, 3)):
                 e = self.num(srcs, 2)
@@ -535,6 +538,7 @@ def all_srcs(spec, acc=None):
             for x in e:
                 walk(x)
     walk(spec["where"])
+    walk(spec.get("having"))
     for e, _ in spec["select"]:
         walk(e)
     return acc
